@@ -85,6 +85,11 @@ func (m *Machine) lenOf(v Value) Value {
 func (m *Machine) appendOp(s, t Value, site *ssa.CallCommon) Value {
 	// []byte forms
 	if bs, ok := s.(ByteSlice); ok {
+		if bs.Resliced {
+			if tt, isBS := t.(ByteSlice); !isBS || !(tt.Nil || m.isEmptyLit(tt.T)) {
+				panic(m.unsupported("append onto a re-sliced opaque []byte: the write may go through to a backing array shared with other values, which the opaque-bytes domain does not track"))
+			}
+		}
 		switch tt := t.(type) {
 		case ByteSlice:
 			if tt.Nil || m.isEmptyLit(tt.T) {
